@@ -114,6 +114,13 @@ def case_for(draw, cmd):
             if f.cmd == name and not f.name.endswith("multipage"):
                 resp = (f.name, draw(f.strategy))
                 break
+    if resp is not None and name not in ("readcapacity10", "readcd") and draw(st.integers(0, 11)) == 0:
+        # the caller only wants the command sent (ALLOCATION LENGTH 0 is valid and means "no data"): nothing
+        # comes back, nothing is decoded, and the zero reaches the CDB
+        for k in ALLOC_ARG:
+            if k in a:
+                a[k] = 0
+                resp = None
     if resp is None and any(k in a for k in ("tl",)) and name.startswith("read"):
         resp = ("raw", draw(st.binary(min_size=1, max_size=64)))
     # make the response fit when the caller chooses the allocation length
@@ -189,6 +196,14 @@ def make_check(cmd, table):
             with lib("facade " + cmd.facade):
                 c = call(cmd, s, a)
         except Violation as v:
+            zero_alloc = isinstance(a, dict) and any(a.get(k) == 0 for k in ALLOC_ARG if k in a)
+            if len(dev.calls) == 1 and zero_alloc and v.kind.startswith("exc:") and "kw" not in a:
+                # nothing was asked for, so there is nothing to decode (the decoders raise on an empty buffer):
+                # the command that reached the device is judged
+                c01.judge(cmd, table, dev.calls[0]["cdb"], a)
+                expect(dev.calls[0]["datain_len"] in (0, None), "mismatch:datain_buffer_although_nothing_was_asked_for",
+                       n=dev.calls[0]["datain_len"])
+                return False, ("alloc_zero",)
             if len(dev.calls) == 1 and written.get("full") is False:
                 # the response did not fit the (default) buffer and was cut: not a conformant
                 # response any more, decode errors are not judged; structural clauses only
